@@ -57,6 +57,7 @@ type knownFinding struct {
 	Harness  string `json:"harness"`        // prefix match; "" = any harness of the property
 	Label    string `json:"assert_label"`   // exact
 	Pattern  string `json:"trace_pattern"`  // ';'-separated subsequence of trace entries ("" = any)
+	Excludes string `json:"trace_excludes,omitempty"` // ';'-separated entries none of which may occur in the trace
 	What     string `json:"what"`
 }
 
@@ -80,8 +81,21 @@ func (k knownFinding) matches(prop string, v violation) bool {
 	if k.Harness != "" && !strings.HasPrefix(v.Harness, k.Harness) {
 		return false
 	}
-	if k.Label != v.Label {
+	if strings.HasSuffix(k.Label, "*") {
+		if !strings.HasPrefix(v.Label, strings.TrimSuffix(k.Label, "*")) {
+			return false
+		}
+	} else if k.Label != v.Label {
 		return false
+	}
+	if k.Excludes != "" {
+		for _, x := range strings.Split(k.Excludes, ";") {
+			for _, t := range v.Trace {
+				if strings.HasPrefix(t, x) {
+					return false
+				}
+			}
+		}
 	}
 	if k.Pattern == "" {
 		return true
